@@ -136,6 +136,49 @@ def run_property(P, tier, seed, replay=None):
                     if c not in spec_fail:
                         spec_fail.append(c)
 
+    # ---- confirmation: a failing case must fail twice ---------------------------------------------
+    # Every failing case is executed once more (implementation side, little parallelism) before it can become a verdict:
+    # a deterministic failure fails again; what a loaded machine did to one run (a time-out inside a live component that the
+    # harness reported as an outcome) does not.  Cases that do not fail again are named in the evidence, never hidden.
+    not_reproduced = []
+    failing = []
+    for c in mismatches + spec_fail:
+        if c not in failing:
+            failing.append(c)
+    if failing and harness_error is None and not replay and getattr(P, "CONFIRM", True):
+        import copy
+        sample = sorted(failing, key=lambda c: len(kv.xtext(c.x)))[:getattr(P, "CONFIRM_SAMPLE", 60)]
+        twins = [copy.copy(c) for c in sample]
+        for t in twins:
+            t.meta = dict(t.meta)
+        i2, m2, s2 = kv.run_cases(twins, bins, drv, impl_shards=2, per_shard=8)
+        again = set()
+        for c, t in zip(sample, twins):
+            i = i2.get(t.id)
+            m = m2.get(t.id)
+            if i is None or m is None or trouble(t, i):
+                again.add(id(c))          # could not be run again: stays a failure (never silently dropped)
+                continue
+            bad = (not ood(t, i)) and ((not compare(t, i, m)) or
+                                       (t.spec and t.id in s2 and not spec_ok(t, i, s2[t.id])) or
+                                       (hasattr(P, "extra_oracle") and bool(P.extra_oracle(t, i))))
+            if bad:
+                again.add(id(c))
+        if len(sample) == len(failing) or again:
+            gone = [c for c in sample if id(c) not in again]
+            if len(sample) < len(failing) and again:
+                gone = []                 # a confirmed failure among the sample: the rest is not re-run and stands
+            for c in gone:
+                not_reproduced.append(c)
+            mismatches = [c for c in mismatches if c not in gone]
+            spec_fail = [c for c in spec_fail if c not in gone]
+            # confirmed cases first, so that the replay shows one of them
+            mismatches.sort(key=lambda c: id(c) not in again)
+            spec_fail.sort(key=lambda c: id(c) not in again)
+        if not_reproduced:
+            notes.append("%d failing case(s) did not fail when run again and are not part of the verdict: %s" % (
+                len(not_reproduced), ", ".join("%s[%s]" % (c.id, c.comp) for c in not_reproduced[:10])))
+
     # ---- verdict ---------------------------------------------------------------------------
     def replay_payload(cs, reason, extra=None):
         return {"property": prop, "reason": reason, "seed": seed, "tier": tier,
@@ -249,6 +292,8 @@ def run_property(P, tier, seed, replay=None):
         "not_executed": not_executed,
         "not_executed_ids": [{"id": c.id, "component": c.comp, "kind": c.meta.get("kind"), "why": w} for c, w in not_executed_cases[:50]],
         "harness_trouble_retried": retried,
+        "failures_not_reproduced_on_a_second_run": [{"id": c.id, "component": c.comp, "kind": c.meta.get("kind"),
+                                                    "input": kv.pretty(c.x, 300)} for c in not_reproduced[:20]],
         "out_of_domain_by_component": {k: "%d of %d" % (v, n_by_comp[k]) for k, v in sorted(ood_by_comp.items())},
         "mismatches_model_vs_implementation": len(mismatches),
         "spec_failures_on_implementation_output": len(spec_fail),
